@@ -101,7 +101,9 @@ CHECKS = {
             "by the correspondence check with table-driven user filters (documented interface) and LocalBioFilters.",
             "Coq proof + extraction-based correspondence", "5 C11"),
     "C14": ("(obtain_vertices, obtain_leaf_vertices, accessor_to_latter_map, remove_useless, latter_map_to_accessor are REGENERATED from the "
-            "current source on every run and proved equal to the model: C14_*_source; the adjacency-matrix pair is not.)  "
+            "current source on every run and proved equal to the model: C14_*_source; so are accessor_to_adjacency_matrix and "
+            "adjacency_matrix_to_accessor (MiniPyM): C14_matrix_content_source, C14_matrix_roundtrip_source, C14_matrix_reject_source, "
+            "for every iteration order of CPython's sets that meets MatrixRepr.set_order_ok, an assumption checked on CPython on every run.)  "
             "Theorems for every legal accessor (any arc subset, k >= 1): latter-map content and round trip, adjacency-matrix "
             "content, round trip and rejection of non-shift arcs, vertex listing, equality of leaf queries from both "
             "representations with the end points of all d-step walks; tied to dsw by the correspondence check on random arc "
@@ -112,7 +114,9 @@ CHECKS = {
             "d live successors give exactly d in the single-start mode; integer Collatz-Wielandt theorems turn per-graph "
             "certificates into brackets on the walk-growth rate for every n.  The model is compared BIT-FOR-BIT with NumPy "
             "(every per-iteration value).  The convergence clause (within 1e-4 for every graph with a 0.9 gap) is NOT a theorem: "
-            "it is decided per sampled graph against kernel-checked brackets; the single-start clause is known finding F9.",
+            "it is decided per sampled graph against kernel-checked brackets, and it is REFUTED with a witness for the random start "
+            "(known finding F12, C17_random_start_refuted: a repeat stalls on the estimate 1.0); the single-start clause is known "
+            "finding F9.",
             "Coq proof (Flocq monotone rounding; exact small-integer float arithmetic; Collatz-Wielandt) + vm_compute "
             "evaluation of the float model and of certificates", "5 C17"),
     "C18": ("Theorems: argsort yields a permutation for any keys, digit->position and position->digit are inverse for any table "
@@ -137,8 +141,12 @@ CHECKS = {
     "C19": ("Theorems for every legal accessor of order k >= 1 with its own latter map and every sequence of calls (any flags) up to "
             "the first call that raises: each returning call removes exactly one existing arc, of maximum intersection score, "
             "changes no other entry, and hands back a legal accessor together with exactly its latter map; scores are "
-            "non-negative, accessor-shaped and positive only on arcs.  Tied to dsw by histories of removals compared after every call.",
-            "Coq proof (invariant by induction over the call list) + extraction-based correspondence of whole histories", "5 C19"),
+            "non-negative, accessor-shaped and positive only on arcs.  REGENERATED: calculate_intersection_score and remove_nasty_arc are "
+            "translated from the current source on every run (MiniPyS deep embedding) and proved equal to the model, value and "
+            "exception; C19_scores_source, C19_step_source, C19_total_source, C19_history_source state the property for the source "
+            "text.  Also tied to dsw by histories of removals compared after every call (accessors in C / Fortran / strided layout).",
+            "Coq proof (invariant by induction over the call list; program-equivalence proofs over a regenerated deep embedding) + "
+            "extraction-based correspondence of whole histories", "5 C19"),
     "C20": ("PARTIAL.  Theorems on the model's world: over any history without arc removal the shared arguments are unchanged and "
             "every result equals the result on the initial arguments; a call depends only on the slots it names; arc removal "
             "touches only its two slots.  These are true of any functional model by construction; what gives the check teeth is "
